@@ -38,7 +38,7 @@ def small_specs(ctx, n):
             specs.append(mk_pair(len(specs), "horizon-shift", m, laws.with_horizon(m, m["T"] + k),
                                  pairs=[[t, t + k] for t in range(m["T"])], label=f"small; k={k}"))
         else:
-            m = gen.rand_model(rng, {**SMALL, "T": [2, 3], "p_h": 1.0, "p_h_stoch": 1.0, "onehot": True, "p_e": 0.6, "max_cells": 900})
+            m = gen.rand_model(rng, {**SMALL, "T": [2, 3], "p_h": 1.0, "p_h_stoch": 1.0, "onehot": "always", "p_e": 0.7, "max_cells": 900})
             rows_ok = True
             try:
                 mm = laws.degenerate_to_deterministic(m)
